@@ -7,7 +7,7 @@
 From Coq Require Import List NArith ZArith Bool Arith.
 From AG Require Import Base.Val Base.Sort Str.MetaVar Tree.Tree Tree.Wf Match.MatchNode Rule.Rule Rule.Kinds
   Rule.Traversal Rule.TraversalSpec Rule.TraversalProofs Rule.Scan Rule.ScanSpec Rule.ScanProofs
-  Rule.Eval Rule.KindsSpec Rule.KindsProofs.
+  Rule.Eval Rule.KindsSpec Rule.KindsProofs Match.Align Match.Prefilter Match.PrefilterSpec Match.PrefilterProofs.
 Import ListNotations.
 
 (* find_all = the nodes the matcher matches individually, in document order — provided kind
@@ -61,6 +61,29 @@ Theorem C01_scan :
     map tid (filter (fun t => hit r t && negb (silenced src root (sr_id r) t)) (preorder root)).
 Proof. exact ScanProofs.C01_scan. Qed.
 Print Assumptions C01_scan.
+
+(* literal prefilter.  Full statement "a file containing a match contains the pattern's fixed string"
+   ([C01_prefilter_stmt], under the assumption that an unnamed token's text is determined by its
+   kind) is FALSE of the faithful model under cst/smart: the matcher drops the unnamed tokens that
+   directly follow an ellipsis at every strictness (skip_trivials), yet fixed_string may select one of
+   them.  The witness is synthetic (a ";" after $$$ that the candidate lacks); no real grammar
+   witness is known, and the correspondence run searches for one on every run. *)
+Theorem C01_prefilter_refuted : ~ C01_prefilter_stmt.
+Proof. exact PrefilterProofs.C01_prefilter_refuted. Qed.
+Print Assumptions C01_prefilter_refuted.
+
+(* proved: the statement for every pattern in which, under cst/smart, no unnamed token directly
+   follows an ellipsis (an executable condition), and for ast/relaxed/signature without condition *)
+Theorem C01_prefilter_partial :
+  forall src root p t e e',
+    pwf (p_node p) = true -> wfb root = true -> in_source src root ->
+    In t (preorder root) ->
+    unnamed_by_kind src (p_node p) t ->
+    C01_ellipsis_hyp p = true ->
+    pattern_match src p t e = Matched e' ->
+    prefilter_keeps p src = true.
+Proof. exact PrefilterProofs.C01_prefilter_partial. Qed.
+Print Assumptions C01_prefilter_partial.
 
 (* non-vacuity: nested matches on  r(a(b c) d)  with m = {r's child a, and b} *)
 Module Ex.
